@@ -2,6 +2,7 @@
 import math
 import os
 import shutil
+import re
 import struct
 import tempfile
 
@@ -251,9 +252,23 @@ def const_check(case, ctx):
     res.labels.extend("g:" + l for l in case["labels"])
     res.sample = {"target": target, "exprs": [it["e"] + " == " + str(it["v"]) for it in case["items"]][:3]}
     if p.rc != 0:
+        err = p.err.decode(errors="replace")
         if arbitrate(ctx, src, target):
-            res.fail = dict(sig="reject:" + p.err.decode(errors="replace").split("error:")[-1].strip()[:50],
-                            msg="valid constant expressions rejected (%s): %s" % (target, p.err.decode(errors="replace")[:300]), input=src)
+            res.fail = dict(sig="reject:" + err.split("error:")[-1].strip()[:50],
+                            msg="valid constant expressions rejected (%s): %s" % (target, err[:300]), input=src)
+            return res
+        # clang does not take the whole unit (it is stricter about what an integer constant expression is):
+        # judge the one line cproc complains about on its own
+        m = re.match(r"[^:\n]*:(\d+):\d+: error:", err)
+        lines = src.split("\n")
+        if m and 1 <= int(m.group(1)) <= len(lines):
+            one = PRE + lines[int(m.group(1)) - 1] + "\n"
+            q = cproc.cc(ctx, one.encode(), target, "plain", timeout=60)
+            if q.rc != 0 and arbitrate(ctx, one, target):
+                res.fail = dict(sig="reject:" + err.split("error:")[-1].strip()[:50],
+                                msg="valid constant expression rejected (%s): %s" % (target, err[:300]), input=one)
+                return res
+            res.discard.append("rejected-line-not-accepted-by-clang-either" if q.rc != 0 else "rejected-line-accepted-alone")
         else:
             res.discard.append("model-or-generator-disagrees-with-clang")
         return res
@@ -281,7 +296,11 @@ def const_check(case, ctx):
             bad = "bytes %s, expected %s" % (img.hex(), want.hex())
         i = int("".join(ch for ch in name if ch.isdigit()))
         it = case["items"][i]
-        if not arbitrate(ctx, src, target, name, want):
+        # clang arbitrates on the one line that defines the object (it rejects many whole units: its notion of an
+        # integer constant expression is stricter than C11 requires an implementation to be)
+        line = [l for l in src.split("\n") if re.search(r"\b%s\b" % re.escape(name), l)]
+        one = PRE + "\n".join(line[:1]) + "\n"
+        if not arbitrate(ctx, one, target, name, want):
             res.discard.append("model-disagrees-with-clang")
             res.labels.append("MODEL-MISMATCH")
             return res
